@@ -73,6 +73,16 @@ def run(pid, tier, seed):
         with ThreadPoolExecutor(max_workers=nshard) as ex:
             parts = list(ex.map(one, range(nshard)))
         recs = sorted((rec for p in parts for rec in p), key=lambda rec: rec["case"]["id"])
+        # a script the real run did not follow (a gate not reached in time on a loaded machine) is run again on its own
+        for attempt in range(2):
+            redo = [rec["case"] for rec in recs if rec["obs"]["desync"]]
+            if not redo:
+                break
+            shards[0] = redo
+            for k in range(1, nshard):
+                shards[k] = []
+            again = {rec["case"]["id"]: rec for rec in one(0)}
+            recs = [again.get(rec["case"]["id"], rec) if rec["obs"]["desync"] else rec for rec in recs]
         obsf = os.path.join(tmp, "obs.ndjson")
         with open(obsf, "w") as f:
             for rec in recs:
